@@ -7,6 +7,8 @@ Op lines (see lean/Percival/Driver/Http.lean):
   end eof|reset                                  what follows the last byte
   req <method> <path> <nh> (<name> <value>)* <body|-> <limit>
   opt <conn-failures> <sndmax> <sndfail|-> <cancel|-> <early>
+      cancel: k = http_request_cancel right after the k-th netbuf_read_wait (0: right after http_request);
+              r<j> = after the event-loop callback which made the j-th recv() call returned (between two segments)
   run | run g                                    g: only callback count / range / leak facts are compared
 """
 import re
@@ -18,7 +20,8 @@ MAXCHLEN = 256
 WAITCAP = 1 << 20
 RBUF = 4096
 
-SRCS = ["netbuf/netbuf_read.c", "netbuf/netbuf_write.c", "network/network_connect.c", "network/network_read.c",
+# netbuf_read.c / netbuf_write.c are #included by the harness (white box: their pending registrations are read)
+SRCS = ["network/network_connect.c", "network/network_read.c",
         "network/network_write.c", "events/events.c", "events/events_immediate.c", "events/events_network.c",
         "events/events_network_selectstats.c", "events/events_timer.c", "util/sock.c", "util/sock_util.c",
         "util/asprintf.c", "util/monoclock.c", "datastruct/elasticarray.c", "datastruct/ptrheap.c",
@@ -670,6 +673,22 @@ def one_mal(r, tier, kind):
     elif kind == "hostile-peer":
         data, _, _ = small_valid(r)
         st.add(data)
+    elif kind == "cancel":
+        # a response which exercises every allocation (header copy, header array, body growth, too-big, 1xx restart),
+        # cancelled at a generated point: see below
+        k = r.below(4)
+        if k == 0:
+            data, _, _ = small_valid(r)
+        elif k == 1:
+            n = r.range(1, 300)
+            data, _, _ = small_valid(r, bodylen=n)
+            limit = max(0, n + r.choice([-1, 0, 1, 5000]))
+        elif k == 2:
+            data = b"HTTP/1.1 100 Continue\r\nX: y\r\n\r\n" * r.range(1, 3) + small_valid(r)[0]
+        else:
+            data = mutate_bytes(r, small_valid(r)[0])
+        st.add(data)
+        seg = r.choice(["bytewise", "bytewise", "whole", "3", "2,0,5", "7,1", "40", None])
     else:
         raise ValueError(kind)
     ops = st.done()
@@ -683,7 +702,20 @@ def one_mal(r, tier, kind):
     out.append(req_line(req, limit))
     # peer behaviour / cancellation
     conn, sndmax, sndfail, cancel, early = 0, 0, "-", "-", 0
-    if kind == "hostile-peer" or r.chance(1, 8):
+    if kind == "cancel" and not generic:
+        hi = st.length + 3
+        # line ends of the stream (status line, header lines, end of the header block, chunk-size lines, chunk ends):
+        # with bytewise delivery the j-th recv() returns byte j, so r<offset> cancels right there
+        small = bytes(st.small)
+        ends = [i + 2 + d for i in range(len(small)) if small[i:i + 2] == b"\r\n" for d in (-1, 0, 1)] or [1]
+        cancel = r.choice(["%d" % r.range(0, min(hi, 60)), "%d" % r.range(0, hi), "r%d" % r.range(1, min(hi, 40)),
+                           "r%d" % r.range(1, hi + 2), "r%d" % max(1, r.choice(ends)), "r%d" % max(1, r.choice(ends[-9:]))])
+        early = r.weighted([(0, 5), (1, 1)])
+        sndmax = r.choice([0, 0, 1, 7])
+        conn = r.weighted([(0, 8), (1, 1)])
+        tags.append("cancel@recv" if cancel[0] == "r" else "cancel@wait")
+        out[0] = "tag " + " ".join(tags)
+    elif kind == "hostile-peer" or r.chance(1, 8):
         k = r.below(5)
         if k == 0:
             conn = r.choice([1, 2, 2])
@@ -691,7 +723,7 @@ def one_mal(r, tier, kind):
             sndfail = str(r.choice([0, 1, 5, 17, 18, 19, 40, 100000]))
             sndmax = r.choice([0, 1, 7])
         elif k == 2 and not generic:
-            cancel = str(r.choice([0, 1, 2, 3, r.range(2, 40)]))
+            cancel = r.choice(["0", "1", "2", "3", str(r.range(2, 40)), "r1", "r2", "r%d" % r.range(1, 40)])
         elif k == 3:
             early = 1
         else:
@@ -704,7 +736,7 @@ def one_mal(r, tier, kind):
 
 MAL_KINDS = [("chunksize", 10), ("chunkline-long", 5), ("limit", 12), ("bighdr", 3), ("flood", 3), ("clen", 6),
              ("framing-mix", 6), ("status", 8), ("truncate", 6), ("mutate", 16), ("garbage", 3), ("nul", 4),
-             ("hostile-peer", 8)]
+             ("hostile-peer", 8), ("cancel", 10)]
 
 
 def gen_mal(rng, tier, mult):
@@ -727,6 +759,20 @@ def gen_mal(rng, tier, mult):
                 ops.append("end reset")
             ops += [req_line(req, limit), "run g" if libc_unspecified(data[:k]) else "run"]
             cases.append(ops)
+    # http_request_cancel at every point of a few small responses: after every recv() (between any two segments)
+    # and right after every wait
+    for ti in range((3 if tier == "quick" else 12) * mult):
+        r = rng.fork("cancel%d" % ti)
+        data, framing, n = small_valid(r, framing=["chunked", "length", "close"][ti % 3], bodylen=r.range(2, 30))
+        if libc_unspecified(data):
+            continue
+        req = gen_request(r, want_head=False)
+        limit = r.choice([0, max(0, n - 1), n, 1 << 20])
+        seg = r.choice(["bytewise", "bytewise", "3", "2,0,1"])
+        for j in range(0, len(data) + 3):
+            for tok in (["%d" % j] if j % 2 == ti % 2 else []) + (["r%d" % j] if j else []):
+                cases.append(["tag mal cancel-every-point", "srv " + hx(data), "seg " + seg, req_line(req, limit),
+                              "opt 0 0 - %s 0" % tok, "run"])
     return cases
 
 
@@ -766,7 +812,7 @@ def classify(case, out):
             if t[3] != "-":
                 tags.append("peer:send-fails")
             if t[4] != "-":
-                tags.append("caller:cancel")
+                tags.append("caller:cancel@recv" if t[4][0] == "r" else "caller:cancel@wait")
             if t[5] == "1":
                 tags.append("peer:answers-early")
         if op == "end reset":
@@ -803,7 +849,9 @@ def comp_mal(ctx):
              "around 256 bytes, white space filling the 4096-byte buffer, bodies at limit-2..limit+2 for every framing, limit 0, header "
              "blocks around 65536 and far above, up to 20000 interim responses, Content-Length around 2^64 / signed / junk, competing "
              "framing headers, 36 status-line shapes, byte-level mutations, NULs, garbage, EOF or reset at every offset of small "
-             "responses), refused connections, failing send(), early answers, cancellation after the k-th wait",
+             "responses), refused connections, failing send(), early answers, http_request_cancel right after the k-th wait / after "
+             "the j-th recv() (every point of small responses, generated points elsewhere); L2 = wait lengths + at every wait the "
+             "live blocks of http.c's own, all live library blocks and the outstanding registrations",
         classify=classify, ldflags=[WRAP])
 
 
